@@ -1,0 +1,29 @@
+//go:build verif
+
+// Add-only verification hook for property C11 (round 7): read-only access to the first
+// derivative of the scalars stored in the private value map of a sparse Real vector.
+package autodiff
+
+// VerifC11Deriv0 returns, for a sparse Real32 / Real64 vector, the map key -> Derivative[0] of
+// every stored non-nil scalar that carries a gradient (Order >= 1, N >= 1); nil for other types.
+func VerifC11Deriv0(v interface{}) map[int]float64 {
+  switch x := v.(type) {
+  case *SparseReal32Vector:
+    r := map[int]float64{}
+    for k, e := range x.values {
+      if e != nil && e.Order >= 1 && e.N >= 1 {
+        r[k] = float64(e.Derivative[0])
+      }
+    }
+    return r
+  case *SparseReal64Vector:
+    r := map[int]float64{}
+    for k, e := range x.values {
+      if e != nil && e.Order >= 1 && e.N >= 1 {
+        r[k] = float64(e.Derivative[0])
+      }
+    }
+    return r
+  }
+  return nil
+}
